@@ -25,10 +25,14 @@ CONSTANTS Props          \* names of the properties the Monitor evaluates
 
 Rec == ndJsonDeserialize(IOEnv.TRACE)
 
-VARIABLES l,             \* index of the next trace line
+SR == INSTANCE StdRc
+
+VARIABLES mstd,          \* Monitor: the reference model of std::rc in lock step (C07), as a pair
+                         \* <<abstract std state, ledger at the start of the top-level call>>
+          l,             \* index of the next trace line
           sn,            \* number of the script being replayed
           viol           \* Monitor: set of [script, prop, line] (first failure per script/prop)
-tvars == <<vars, l, sn, viol>>
+tvars == <<vars, l, sn, viol, mstd>>
 
 -----------------------------------------------------------------------------
 (* Decoding a logged observation *)
@@ -86,6 +90,7 @@ Holds(p) ==
     [] p = "C16" -> C16
     [] p = "C15" -> C15
     [] p = "C09" -> C09
+    [] p = "C07" -> C07flag
     [] p = "C12" -> C12 /\ C01 /\ C03 /\ C05
     [] p = "C10" -> C01 /\ C02 /\ C03 /\ C04 /\ C05 /\ C06
     [] p = "C11" -> C01 /\ C02 /\ C05 /\ C06 /\ C08 /\ C11x
@@ -117,7 +122,7 @@ MonStep ==
      /\ CASE ln.k = "reset" ->
              \* the same script may be replayed under several heap layouts (consecutive resets
              \* with the same script number): the outcomes of layout 0 are kept as the baseline
-             /\ heap' = Heap0 /\ led' = Led0 /\ ctl' = Ctl0 /\ sn' = ln.script
+             /\ heap' = Heap0 /\ led' = Led0 /\ ctl' = Ctl0 /\ sn' = ln.script /\ mstd' = [st |-> SR!Std0, g |-> Led0]
              /\ ob' = [Ob0 EXCEPT !.layout = ln.layout,
                                   !.base = IF ln.layout = 0 THEN <<>>
                                            ELSE IF ob.layout = 0 THEN ob.sig ELSE ob.base]
@@ -134,7 +139,7 @@ MonStep ==
                 /\ led' = g1
                 /\ ob' = ObsInto(x1, ln.obs)
                 /\ ctl' = [stack |-> LibFrame, mode |-> "run"]
-                /\ sn' = sn
+                /\ sn' = sn /\ mstd' = IF ln.depth = 0 THEN [mstd EXCEPT !.g = g1] ELSE mstd
           [] ln.k = "ret" ->
              LET h2 == HeapOf(ln.obs)
                  x1 == ObsInto(ob, ln.obs)
@@ -158,21 +163,36 @@ MonStep ==
                  c09 == IF ln.depth = 0 /\ ob.layout > 0 /\
                            (Len(sig2) > Len(ob.base) \/ ob.base[Len(sig2)] # sg)
                         THEN {"C09"} ELSE {}
+                 \* C07: the real std::rc, the real cactusref and the reference model agree
+                 m2  == IF ln.depth = 0 /\ ln.stdon THEN SR!StdApply(mstd.st, mstd.g, ln.op, ln.a, ln.b) ELSE mstd.st
+                 v2  == SR!StdView(m2)
+                 c07 == IF ln.depth = 0 /\ ln.stdon /\ ~g2.adopted /\
+                           ~( /\ ln.std.ret = ln.ret
+                              /\ ln.std.dlog = ob.dlog
+                              /\ ln.std.clones = ln.cnt.nclones
+                              /\ Len(ln.std.seen) = Len(ln.seen)
+                              /\ \A j \in 1..Len(ln.std.seen) :
+                                    LET e == ln.std.seen[j]  c == ln.seen[j] IN
+                                    /\ e[1] = c[1] /\ e[2] = c[2] /\ e[3] = c[3] /\ e[4] = c[4]
+                                    /\ e[3] = v2.sc[e[1]]
+                                    /\ e[4] = IF e[2] = "S" THEN m2.weak[e[1]] - 1 ELSE v2.wc[e[1]]
+                              /\ v2.ret = ln.std.ret /\ v2.dlog = ln.std.dlog )
+                        THEN {"C07"} ELSE {}
                  c15 == IF ln.cnt.nvisit > ln.cnt.ntrace * Cardinality(Made(g2)) THEN {"C15"} ELSE {}
-                 x2 == [x1 EXCEPT !.ret = ln.ret, !.flags = @ \cup up \cup c14 \cup sf \cup c15 \cup c16 \cup c09, !.sig = sig2,
+                 x2 == [x1 EXCEPT !.ret = ln.ret, !.flags = @ \cup up \cup c14 \cup sf \cup c15 \cup c16 \cup c09 \cup c07, !.sig = sig2,
                                   !.ntrace = ln.cnt.ntrace, !.npop = ln.cnt.npop,
                                   !.nvisit = ln.cnt.nvisit, !.nmember = ln.cnt.nmember]
              IN /\ heap' = h2
                 /\ led' = IF ln.panic THEN [g2 EXCEPT !.panicked = Obj] ELSE g2
                 /\ ob' = IF ln.depth = 0 THEN Finalize(g2, x2) ELSE x2
                 /\ ctl' = [stack |-> IF ln.depth = 0 THEN <<>> ELSE UserFrame(0), mode |-> "run"]
-                /\ sn' = sn
+                /\ sn' = sn /\ mstd' = [mstd EXCEPT !.st = m2]
           [] ln.k = "dtor" ->
              /\ heap' = HeapOf(ln.obs)
              /\ led' = EraseRec(led, ln.a)
              /\ ob' = [ObsInto(ob, ln.obs) EXCEPT !.dlog = Append(@, ln.a)]
              /\ ctl' = [stack |-> UserFrame(ln.a), mode |-> "run"]
-             /\ sn' = sn
+             /\ sn' = sn /\ mstd' = mstd
           [] ln.k = "died" ->
              \* the child process was killed by a signal right after the last logged line
              LET c == ob.call
@@ -183,12 +203,12 @@ MonStep ==
              IN /\ heap' = heap /\ led' = led
                 /\ ob' = [ob EXCEPT !.flags = @ \cup (IF expected THEN {} ELSE {"CRASH"}), !.ret = "abort"]
                 /\ ctl' = [stack |-> LibFrame, mode |-> "aborted"]
-                /\ sn' = sn
+                /\ sn' = sn /\ mstd' = mstd
           [] ln.k = "abort" ->
              /\ heap' = HeapOf(ln.obs) /\ led' = led
              /\ ob' = [ObsInto(ob, ln.obs) EXCEPT !.flags = @ \cup {"C11"}]
              /\ ctl' = [stack |-> LibFrame, mode |-> "aborted"]
-             /\ sn' = sn
+             /\ sn' = sn /\ mstd' = mstd
           [] ln.k = "hdrop" ->
              /\ heap' = HeapOf(ln.obs)
              /\ led' = IF ln.kind = "S" THEN [led EXCEPT !.valS[ln.a][ln.b] = @ - 1]
@@ -198,13 +218,13 @@ MonStep ==
                                                         !.dcset = @ \cup DCSet(led', ob, ln.b)]
                       ELSE ObsInto(ob, ln.obs)
              /\ ctl' = [stack |-> LibFrame, mode |-> "run"]
-             /\ sn' = sn
+             /\ sn' = sn /\ mstd' = mstd
      /\ viol' = viol \cup
           {[script |-> sn', prop |-> p, line |-> l] :
              p \in {p \in Props : ~Holds(p)' /\ ~\E v \in viol : v.script = sn' /\ v.prop = p}}
      /\ (l' = Len(Rec) + 1) => PrintT(<<"VIOL", ToJson(viol')>>)
 
-MonInit == Init /\ l = 1 /\ sn = -1 /\ viol = {}
+MonInit == Init /\ l = 1 /\ sn = -1 /\ viol = {} /\ mstd = [st |-> SR!Std0, g |-> Led0]
 MonNext == MonStep
 \* all lines consumed: checked as a POSTCONDITION
 MonAccepted ==
@@ -277,8 +297,8 @@ ConfStep ==
                                        ELSE led'.valW[ln.a][ln.b] = led.valW[ln.a][ln.b] - 1
                    /\ HeapMatches(heap, ob, ln.obs)
 
-ConfInit == Init /\ l = 1 /\ sn = -1 /\ viol = {} /\ TLCSet(1, 1) /\ TLCSet(2, "init")
-ConfNext == ConfStep /\ UNCHANGED viol
+ConfInit == Init /\ l = 1 /\ sn = -1 /\ viol = {} /\ mstd = [st |-> SR!Std0, g |-> Led0] /\ TLCSet(1, 1) /\ TLCSet(2, "init")
+ConfNext == ConfStep /\ UNCHANGED <<viol, mstd>>
 \* remember the furthest line reached (needs -workers 1)
 ConfProgress ==
   IF l >= TLCGet(1)
